@@ -21,6 +21,7 @@ structure Mk where
   refText : Option String := none -- the implementation's own contiguous decode
   nontrivial : Bool := false
   hasParams : Bool := false
+  segLens : List Nat := []        -- buffer lengths of the implementation's wire as returned
 
 structure MkResult where
   expected : String
@@ -50,6 +51,12 @@ def specInterestSigInfo (c : SigCfg) : SigInfo :=
 
 def recEcho (r : Rec) : String := s!"est={r.est} sc={r.scRaw}"
 
+def segsOf (gt : List String) : List Nat :=
+  match kv gt "segs" with
+  | some s => (s.splitOn ",").filterMap String.toNat?
+  | none => []
+def segsEcho (gt : List String) : String := " segs=" ++ (kv gt "segs").getD ""
+
 def runMkd (f : List String) (got : String) : MkResult :=
   let gt := got.splitOn " "
   match mkdOf f, recOf gt with
@@ -66,8 +73,12 @@ def runMkd (f : List String) (got : String) : MkResult :=
         else match makeData d (fun _ => rec.sv.getD []) with
           | .ok e =>
             let covS := match e.sigCovered with | some c => hexOrDash c | none => "nil"
-            (s!"ok w={hexOrDash e.wire.flatten} {recEcho rec} sv={hexNil (if est > 0 then some e.sigVal else none)} cov={covS} rc={covS}",
+            (s!"ok w={hexOrDash e.wire.flatten} {recEcho rec} sv={hexNil (if est > 0 then some e.sigVal else none)} cov={covS} rc={covS}{segsEcho gt}",
              [if est > 0 then "mkd-signed" else "mkd-unsigned",
+              if e.wire.map List.length == segsOf gt then "segs-match" else "segs-differ",
+              (match decTL (e.wire.flatten.drop 1) with
+               | some (l, _) => if tlLen l < tlLen (dataLen d) then "outer-len-narrowed" else "outer-len-same"
+               | none => "outer-len-same"),
               if op.content.isSome then "data-content" else "data-nocontent"] ++
              (if est > 0 ∧ e.sigVal.length < est then ["sig-shrink"] else []) ++
              (if est ≥ 253 then ["sig-est-ge253"] else []) ++
@@ -96,7 +107,7 @@ def runMkd (f : List String) (got : String) : MkResult :=
         let txt := dataText exp (Spec.signedPortion w)
         some { kind := 'D', w := w, signer := op.signer, signed := signed,
                handedCov := (kv gt "cov").bind fun s => if s == "nil" then none else bytesOfHex s,
-               sv := rec.sv, sigType := rec.sc.map (·.typ.toNat),
+               sv := rec.sv, sigType := rec.sc.map (·.typ.toNat), segLens := segsOf gt,
                expectText := some (if signed then txt else stripCov txt),
                nontrivial := bigElem op.name op.content || (op.content.getD []).length ≥ 2 ||
                  ([op.ct.isSome, op.fr.isSome, op.fb.isSome, rec.sc.isSome].filter id).length ≥ 2 }
@@ -122,8 +133,9 @@ def runMki (f : List String) (got : String) : MkResult :=
         else match makeInterest i (fun _ => rec.sv.getD []) Sha.sha256 with
           | .ok (e, fn) =>
             let covS := match e.sigCovered with | some c => hexOrDash c | none => "nil"
-            (s!"ok w={hexOrDash e.wire.flatten} {recEcho rec} sv={hexNil (if est > 0 then some e.sigVal else none)} cov={covS} rc={covS} fn={Name.toText fn}",
-             [if est > 0 then "mki-signed" else "mki-unsigned", if need then "interest-digest" else "interest-noparams"] ++
+            (s!"ok w={hexOrDash e.wire.flatten} {recEcho rec} sv={hexNil (if est > 0 then some e.sigVal else none)} cov={covS} rc={covS} fn={Name.toText fn}{segsEcho gt}",
+             [if est > 0 then "mki-signed" else "mki-unsigned", if need then "interest-digest" else "interest-noparams",
+              if e.wire.map List.length == segsOf gt then "segs-match" else "segs-differ"] ++
              (if est > 0 ∧ e.sigVal.length < est then ["sig-shrink"] else []) ++
              (if est ≥ 253 then ["sig-est-ge253"] else []))
           | r => (resText (r.bind fun _ => .ok "") ++ s!" {recEcho rec}", ["mki-err"])
@@ -154,7 +166,7 @@ def runMki (f : List String) (got : String) : MkResult :=
         let txt := interestText exp (Spec.signedPortion w)
         some { kind := 'I', w := w, signer := op.signer, signed := signed,
                handedCov := (kv gt "cov").bind fun s => if s == "nil" then none else bytesOfHex s,
-               sv := rec.sv, sigType := rec.sc.map (·.typ.toNat), hasParams := need,
+               sv := rec.sv, sigType := rec.sc.map (·.typ.toNat), hasParams := need, segLens := segsOf gt,
                -- guard (NoTrailingDigest): without parameters the encoder drops ONE trailing digest
                -- component; a name that still ends in one is rejected by the decoder by design
                expectText := if !need ∧ (base.getLast?.map (·.typ)) == some 2 then none
@@ -168,8 +180,8 @@ def runMki (f : List String) (got : String) : MkResult :=
     else { expected := "bad-op", built := none }
 
 /-- model decode of the implementation's wire with the given cut spec -/
-def modelRead (kind : Char) (w : Bytes) (cuts : String) : String :=
-  match readerOf w cuts with
+def modelRead (kind : Char) (w : Bytes) (cuts : String) (own : List Nat := []) : String :=
+  match readerOf w cuts own with
   | some r => resText (readAs kind r)
   | none => "bad-op"
 
